@@ -13,6 +13,8 @@ def run(tier, seed):
     cfg = "MC_HistPool_c13q" if tier == "quick" else "MC_HistPool_c13t"
     emb = [("dyadic", 0), ("dyadic", 1)] if tier == "quick" else [("dyadic", 0), ("dyadic", 1), ("ulp", 0)]
     run_pool(ctx, cfg, REQ, VIEW, emb, budget=60000 if tier == "quick" else 300000)
+    from props import adaptive
+    adaptive.dtype_part(ctx, tier)
     ctx.assumptions = ["the dtype rule of every action is the transcription PhystRec.Promote of numpy.promote_types, checked against numpy at start-up",
                        "h.dtype, h.frequencies.dtype and h.errors2.dtype are all compared with the spec's dtype after every call"]
     return ctx.finish("histories (<= MaxDepth) over 7 seed dtypes x {fill int/float weight, +, +=, -, -=, *, /, normalize, merge, set dtype} "
